@@ -34,6 +34,10 @@ func (ld *Loaded) staticScans(id string) []*FuncResult {
 				has = true
 			}
 		}
+		if has && fd.Kind == "constructed_by" {
+			out = append(out, ld.constructedByScan(fd))
+			continue
+		}
 		if has && fd.Kind == "promoted" {
 			out = append(out, ld.promotedScan(fd))
 			continue
@@ -129,6 +133,54 @@ func (ld *Loaded) promotedScan(fd *FieldDecl) *FuncResult {
 	o.Detail = fmt.Sprintf("methods %s of *%s are promoted from the embedded field %s", fd.Arg, fd.Type, fd.Field)
 	if len(bad) > 0 {
 		o.Detail += ": FAILS: " + strings.Join(bad, "; ")
+	}
+	return &FuncResult{Key: "static:" + o.Name, Obls: []*Obligation{o}}
+}
+
+// constructedByScan: objects of struct type T are allocated only in the named constructors.
+func (ld *Loaded) constructedByScan(fd *FieldDecl) *FuncResult {
+	o := &Obligation{Name: shortStem(fd.Pkg, fd.Type) + "#frame:constructed_by", Kind: "frame", Static: true, Props: fd.Props}
+	ctors := map[string]bool{}
+	for _, c := range strings.Split(fd.Arg, ",") {
+		if c = strings.TrimSpace(c); c != "" {
+			ctors[qualifyFuncName(c, fd.Pkg)] = true
+		}
+	}
+	tname := fd.Pkg + "." + fd.Type
+	var bad []string
+	n := 0
+	var keys []string
+	for k := range ld.fnByKey {
+		keys = append(keys, k)
+	}
+	sort.Strings(keys)
+	for _, k := range keys {
+		for _, fn := range ld.fnByKey[k] {
+			root := fn
+			for root.Parent() != nil {
+				root = root.Parent()
+			}
+			for _, b := range fn.Blocks {
+				for _, in := range b.Instrs {
+					a, ok := in.(*ssa.Alloc)
+					if !ok {
+						continue
+					}
+					if namedStructKey(deref(a.Type())) != tname {
+						continue
+					}
+					n++
+					if !ctors[fnKey(root)] {
+						bad = append(bad, fn.String())
+					}
+				}
+			}
+		}
+	}
+	o.StaticOK = len(bad) == 0
+	o.Detail = fmt.Sprintf("%s objects are allocated only in %s (%d allocation sites)", fd.Type, fd.Arg, n)
+	if len(bad) > 0 {
+		o.Detail += "; FAILS: also allocated in " + strings.Join(bad, ", ")
 	}
 	return &FuncResult{Key: "static:" + o.Name, Obls: []*Obligation{o}}
 }
